@@ -65,10 +65,12 @@ def check_reduced_set(report, sw, ent, rule):
     labeled_indices(...) and the subset (concatenate / union / append / sort of those), never as a
     complement of something in the whole pool (which keeps unlabeled samples that are no candidates)."""
     idx_names = set()
+    ps_ = [a for a in sw.params() if a != "self"]
+    xy = set(ps_[:2])    # the samples and their labels, by position
     for n in ast.walk(sw.node):
         if isinstance(n, ast.Assign) and isinstance(n.value, ast.Subscript) and isinstance(n.value.value, ast.Name) \
-                and n.value.value.id in ("X", "y") and isinstance(n.value.slice, ast.Name) \
-                and any(isinstance(t, ast.Name) and t.id.startswith("new_") for t in n.targets):
+                and n.value.value.id in xy and isinstance(n.value.slice, ast.Name) \
+                and any(isinstance(t, ast.Name) and t.id not in xy for t in n.targets):
             idx_names.add(n.value.slice.id)
     labeled = {t.id for n in ast.walk(sw.node) if isinstance(n, ast.Assign) and isinstance(n.value, ast.Call)
                and c01.callname(n.value) == "labeled_indices" for t in n.targets if isinstance(t, ast.Name)}
